@@ -204,6 +204,29 @@ CHECKS["C05"] = dict(
     note="struct pack/unpack and astropy's sexagesimal parser are trusted stubs; string values from a small alphabet; 0.01-arcsec astropy accuracy outside.",
     design="DESIGN.md section 4 (C05)")
 
+CHECKS["C12"] = dict(
+    engine="E1 nbsym on fftconvolve/circular_pad_goodsize/form_mspec with the FFT as a trusted contract (symx/fftc.py); E2 on TimeSeries.rfft/correlate and FourierSeries.ifft; z3",
+    technique="symbolic execution of numba's typed IR of the FFT-based kernels and of the real rfft/ifft/correlate bytecode with rfft/irfft replaced by a convolution-theorem contract (incl. irfft's default output length); z3 decides the resulting polynomial identities; models replayed on the real kernels",
+    text="PARTIAL. Decided: the library's own bookkeeping around the FFT - good-size choice, zero padding, the [:n+m-1] slice, reversal for "
+         "correlation, the length passed (or not passed) to irfft, header nsamples - for every series length up to the bound and kernel length "
+         "<= n with symbolic real data: fftconvolve = full linear convolution, correlate = correlation at lags -(m-1)..n-1, rfft then ifft = "
+         "input zero-padded to the transform length for every n (incl. odd good sizes), circular_pad_goodsize = periodic extension, "
+         "form_mspec = modulus of each bin. NOT decided: that rocket-fft computes the discrete Fourier sum, Parseval's identity, and the float32 "
+         "FFT error (the FFT is FFI; these remain assumptions).",
+    note="FFT contract trusted (symx/fftc.py); rocket_fft.good_size evaluated concretely; exact arithmetic; lengths <= 6/10 (convolution) and <= 15/27 (round trip).",
+    design="DESIGN.md section 4 (C12)")
+
+CHECKS["C13"] = dict(
+    engine="E1 nbsym on convolve_templates and normalize_template with the FFT contract; z3",
+    technique="symbolic execution of numba's typed IR of convolve_templates (typed lists of templates and reference bins) with the FFT contract and the normalisation as an elementwise map established from normalize_template's IR; z3 decides the bilinear identities; models replayed on the compiled kernel",
+    text="PARTIAL. Decided: for every data length up to the bound (incl. odd good FFT sizes), template length <= 3 and reference bin, "
+         "convs[i,t] = sum_k zp[(t+k-ref) mod N]*Hn[k] with zp the data periodically extended to the good size N and Hn the zero-padded template "
+         "after normalisation; normalize_template gives zero mean and unit power through one affine map for all bins (unchanged when the power "
+         "is zero). NOT decided: FFT accuracy; the argmax bookkeeping of MatchedFilter._compute; invariance under offset/scale of the data "
+         "(depends on the robust estimators of C15); gaussian/lorentzian generators; end-to-end boxcar recovery.",
+    note="FFT contract trusted; exact arithmetic with sqrt as a fresh non-negative root; small shapes.",
+    design="DESIGN.md section 4 (C13)")
+
 NOT_APPLICABLE = {}
 
 PENDING = "check not built yet in this round (see DESIGN.md section 8 for the build order); no claim is made"
